@@ -17,8 +17,6 @@ def c11(chk, opts):
     bases = [e for e in evs if e["base"] == 0]
     ties = sum(1 for e in bases if any(p[0] >= 2 for p in e["patterns"]))
     shows = sum(e["count"] for e in evs)
-    if len(bases) < 8 or ties < 3:
-        raise ToolError("vacuity: %d bases, %d with ties" % (len(bases), ties))
     for i in bad:
         ev = evs[i - 1]
         base = evs[ev["base"] - 1] if ev["base"] else ev
@@ -26,6 +24,8 @@ def c11(chk, opts):
         chk.violation("tallies of the image run (sigma=%s, pi=%s) %s differ from the base run's %s, or a showdown's winner flags do not add up to one pot; base flop %s" %
                       (ev["sigma"], ev["pi"], ev["tally"], base["tally"], base["flop"]), sig,
                       {"gen": ["c11"], "base": base, "image": ev})
+    if not chk.violations and (len(bases) < 8 or ties < 3):
+        raise ToolError("vacuity: %d bases, %d with ties" % (len(bases), ties))
     for i in (0, 1, len(events) // 2):
         chk.sample(events[i][:700])
     if opts.get("selftest"):
